@@ -115,6 +115,12 @@ func (c *recClient) Do(req *http.Request) (*http.Response, error) {
 		}
 	}
 	if st < 0 {
+		// an HttpClient other than *http.Client need not say which request
+		// failed (net/http wraps its errors in a *url.Error, a dialer or a
+		// test double does not): naming the failure is the batch's job
+		if strings.Contains(cp.URL, "0") {
+			return nil, errors.New("verif: connection refused")
+		}
 		return nil, fmt.Errorf("verif: transport error for %s", cp.URL)
 	}
 	return &http.Response{StatusCode: st, Status: fmt.Sprintf("%d %s", st, http.StatusText(st)), Body: io.NopCloser(&slowReader{b: servedBody(cp.URL)}), Header: http.Header{}}, nil
@@ -207,9 +213,11 @@ func (s *recSigner) SignRequest(pKey crypto.PrivateKey, pubKeyId string, r *http
 	r.Header.Set("Signature", "recorded")
 	atomic.AddInt32(&s.inUse, -1)
 	if s.fail || s.failURL[r.URL.String()] {
-		// like the HTTP client's errors, the signer's error says which
-		// request it refused, so that "names each failure" can be decided
-		// on the batch error's text
+		// some errors say which request was refused, as the HTTP client's do
+		if strings.Contains(r.URL.String(), "1") {
+			// a signer knows nothing of recipients ("missing header digest")
+			return errors.New("verif: signer refused the request")
+		}
 		return errors.New("verif: signer refused " + r.URL.String())
 	}
 	return nil
